@@ -3,7 +3,7 @@
    returns the projected observables as byte strings.  Integers travel as 8-byte
    big-endian two's complement. *)
 From Gen Require Import Consts.
-From Model Require Import Bytes Entries Prim Tables ExtCrypto Cert KAC Mapping Sig LS RI Time Crypto Base Addr Heap.
+From Model Require Import Bytes Entries Prim Tables ExtCrypto Cert KAC Mapping Sig LS RI Time Crypto Base Addr Heap Enc.
 Open Scope N_scope.
 
 Definition argZ (b : bytes) : Z := wrap64 (Z.of_N (be_decode b)).
@@ -166,6 +166,8 @@ Definition run_struct (e : N) (a : list bytes) : option (res (list bytes)) :=
     | Err => Ok [outB (kac_validate k); []]
     | Panic => Panic
     end)
+  else if e =? E_ELSSplit then Some (do s <- els_split a0; let '(eph, nonce, ct, tag) := s in Ok [eph; nonce; ct; tag])
+  else if e =? E_BlindingDate then Some (Ok [date_string (argZ a0)])
   (* size/deny lookups on one 16-bit code (C09, C10 translation validation) *)
   else if e =? E_KCSizes then Some (let t := argZ a0 in
     Ok [optZ (kc_sig_size t); optZ (kc_spk_size t); optZ (kc_crypto_size t); optZ (kc_crypto_pub_sizes t); optZ (kc_sig_pub_sizes t)])
